@@ -186,7 +186,7 @@ def stats_matrix(seed: int, n: int) -> List[List[dict]]:
         pl = []
         for j in range(4):
             # data types only: the control types would be *requests* to the manager, not traffic
-            ts = tuple(t for t in (r.randrange(0, 10000) for _ in range(r.randrange(0, 6))) if t not in F.CONTROL_TYPES)
+            ts = tuple(t for t in (r.randrange(0, 10000) for _ in range(r.randrange(0, 6))) if t not in F.CONTROL_TYPES and not 40 <= t <= 45)
             pl.append((0, 0, r.choice((1, 1, 2)), ts))
         plans.append(pl)
     if n and n < len(plans):
